@@ -33,10 +33,19 @@ package drummer
 // Spec "REAL" uses a genuine context.WithCancel context cancelled before the
 // turn (what e.stop() produces); no operation log is available then.
 //
+// Interference (operation-granularity interleaving): wp=<id>:<tick> makes the
+// executor itself write the record (instance id, tick) - a CAS naming whoever
+// holds the record at that moment, i.e. what a competing server's successful
+// campaign / renewal does - at the moment the turn derives the context of its
+// proposal, i.e. between the turn's lookup and its CAS; wr=<id>:<tick> does the
+// same at the moment the context of the turn's SECOND lookup (campaign's
+// read-back) is derived, i.e. between the turn's CAS and its read-back.
+//
 // Input grammar (one token line each):
 //   CASE <name> <nservers> <id0> ... <idn-1>
 //   INIT <id> <tick>                 (optional) write the record directly first
-//   T <server> <tick> <faults>       faults: "-" | "REAL" | k=v,... with k in r1 r2 s p c, v in 1 2
+//   T <server> <tick> <faults>       faults: "-" | "REAL" | k=v,... with k in r1 r2 s p c, v in 1 2,
+//                                    or k in wp wr, v = <id>:<tick>
 //   END
 // Output:
 //   P <constant name> <n>            (deadLeaderMinRound, leadershipRenewalSecond, DBKV* result codes)
@@ -73,11 +82,37 @@ import (
 var vClosed = func() chan struct{} { c := make(chan struct{}); close(c); return c }()
 
 type vctx struct {
-	mu    sync.Mutex
-	plan  map[string]int
-	reads int
-	cur   int
-	ops   []string
+	mu     sync.Mutex
+	plan   map[string]int
+	wplan  map[string][2]uint64
+	nh     *dragonboat.NodeHost
+	srv    *server
+	reads  int
+	cur    int
+	ops    []string
+	ierr   error
+	inside bool
+}
+
+// interfere performs the foreign write planned for this point of the turn.
+func (c *vctx) interfere(key string) {
+	w, ok := c.wplan[key]
+	if !ok || c.nh == nil {
+		return
+	}
+	delete(c.wplan, key)
+	var kv *pb.KV
+	err := vRetry(func(ctx context.Context) error {
+		var err error
+		kv, err = c.srv.getElectionInfo(ctx)
+		return err
+	})
+	if err == nil {
+		err = vWriteRecord(c.nh, w[0], kv.InstanceId, w[1])
+	}
+	if err != nil {
+		c.ierr = err
+	}
 }
 
 func (c *vctx) classify() (kind string, derive bool) {
@@ -107,6 +142,13 @@ func (c *vctx) classify() (kind string, derive bool) {
 }
 
 func (c *vctx) Deadline() (time.Time, bool) {
+	c.mu.Lock()
+	if c.inside {
+		// called from the interfering write itself: behave like Background
+		c.mu.Unlock()
+		return time.Time{}, false
+	}
+	c.mu.Unlock()
 	kind, derive := c.classify()
 	c.mu.Lock()
 	defer c.mu.Unlock()
@@ -118,6 +160,19 @@ func (c *vctx) Deadline() (time.Time, bool) {
 		}
 		c.ops = append(c.ops, kind)
 		c.cur = c.plan[key]
+		ikey := ""
+		if kind == "p" {
+			ikey = "wp"
+		} else if key == "r2" {
+			ikey = "wr"
+		}
+		if ikey != "" {
+			c.inside = true
+			c.mu.Unlock()
+			c.interfere(ikey)
+			c.mu.Lock()
+			c.inside = false
+		}
 	}
 	if c.cur == 2 {
 		return time.Now().Add(-time.Hour), true
@@ -309,19 +364,30 @@ func vParse(path string) ([]*vCase, error) {
 	return cases, sc.Err()
 }
 
-func vPlan(spec string) map[string]int {
+func vPlan(spec string) (map[string]int, map[string][2]uint64) {
 	m := map[string]int{}
+	w := map[string][2]uint64{}
 	if spec == "-" || spec == "REAL" {
-		return m
+		return m, w
 	}
 	for _, kv := range strings.Split(spec, ",") {
 		p := strings.SplitN(kv, "=", 2)
-		if len(p) == 2 {
-			v, _ := strconv.Atoi(p[1])
-			m[p[0]] = v
+		if len(p) != 2 {
+			continue
 		}
+		if p[0] == "wp" || p[0] == "wr" {
+			q := strings.SplitN(p[1], ":", 2)
+			if len(q) == 2 {
+				id, _ := strconv.ParseUint(q[0], 10, 64)
+				tk, _ := strconv.ParseUint(q[1], 10, 64)
+				w[p[0]] = [2]uint64{id, tk}
+			}
+			continue
+		}
+		v, _ := strconv.Atoi(p[1])
+		m[p[0]] = v
 	}
-	return m
+	return m, w
 }
 
 func vTurnRun(e *electionManager, ctx context.Context, tick uint64) (panicked bool) {
@@ -390,11 +456,16 @@ func vRunCase(c *vCase) (lines []string) {
 			cancel()
 			panicked = vTurnRun(e, ctx, t.tick)
 		} else {
-			vc := &vctx{plan: vPlan(t.faults)}
+			pl, wpl := vPlan(t.faults)
+			vc := &vctx{plan: pl, wplan: wpl, nh: nh, srv: srv}
 			panicked = vTurnRun(e, vc, t.tick)
 			vc.mu.Lock()
 			ops = strings.Join(vc.ops, "")
+			ierr := vc.ierr
 			vc.mu.Unlock()
+			if ierr != nil {
+				return fail("interfering write: " + ierr.Error())
+			}
 			if ops == "" {
 				ops = "."
 			}
